@@ -10,6 +10,7 @@ import (
 	"encoding/hex"
 	"fmt"
 	"math/big"
+	"net/netip"
 	"regexp"
 	"strings"
 
@@ -73,7 +74,21 @@ func patMatch(p, s string) bool {
 	return re.MatchString(s)
 }
 
-func fmtOK(f, s string) bool { return goa.ValidateFormat("x", s, goa.Format(f)) == nil }
+// fmtOK: does s conform to format f? For the formats whose meaning is fixed outside goa
+// (ipv4: a dotted quad, ipv6: an IPv6 literal - IPv4-mapped ones included - per the OpenAPI
+// format registry) the answer is computed independently with net/netip; the other format
+// names are goa's own and goa.ValidateFormat is their oracle (their exactness is C17's).
+func fmtOK(f, s string) bool {
+	switch f {
+	case "ipv4":
+		a, err := netip.ParseAddr(s)
+		return err == nil && a.Is4()
+	case "ipv6":
+		a, err := netip.ParseAddr(s)
+		return err == nil && a.Is6() && a.Zone() == ""
+	}
+	return goa.ValidateFormat("x", s, goa.Format(f)) == nil
+}
 
 func kindOn(bt *dg.Type) string {
 	switch bt.Kind {
